@@ -19,7 +19,7 @@ RULE = (
     "a fitting put is resident afterwards, evicted entries were not definitely used after the latest possible use of a retained one, "
     "evictions are minimal, residents vanish only by forget/replace/room-making, reads of residents return the last value put. "
     "(B) Hypothesis histories through the filesystem backend with a cache: same accounting invariants after every step and "
-    "a read of an entry resident with its value opens no file under the store (audit hook). "
+    "a read of an entry resident with its value opens no file under the store (audit hook), and a fitting str/bytes/array value that was just loaded from the store is served by the cache when it is read again at once. "
     "Non-trivial = transition/history with an eviction, an oversize or exactly fitting put, or a forget of a resident; "
     "distinct by (state, op) in A and by op-kind sequence in B."
 )
@@ -43,7 +43,7 @@ MANIFEST = {
 # ------------------------------------------------------------------------------------------
 
 class CacheRig:
-    def __init__(self, budget_mb, keys, kind="str"):
+    def __init__(self, budget_mb, keys, kind="str", classes=("tiny", "third", "half", "fit", "over")):
         from twosigma.memento.storage_base import MemoryCache
         self.MemoryCache = MemoryCache
         self.budget_mb = budget_mb
@@ -56,6 +56,7 @@ class CacheRig:
         # values are str (not weak-referenceable) or numpy int8 arrays (weak-referenceable: the cache also keeps a weak
         # reference to them, a second way to serve a read); element counts are chosen so that sys.getsizeof hits the class
         self.kind = kind
+        self.classes = tuple(classes)
         ov = sys.getsizeof(self.make(0, 0))
         self.sizes = {"tiny": 1, "third": max(b // 3 - ov, 2), "half": max(b // 2 - ov, 3),
                       "fit": b - ov, "over": b - ov + 1}
@@ -69,7 +70,7 @@ class CacheRig:
     def ops(self):
         out = []
         for i, k in enumerate(self.keys):
-            for cls in ("tiny", "third", "half", "fit", "over"):
+            for cls in self.classes:
                 out.append(["put", i, cls])
             out += [["putm", i], ["read", i], ["is", i], ["get", i], ["forget_call", i]]
         for f in sorted({k[0] for k in self.keys}):
@@ -254,6 +255,11 @@ CONFIGS_A = [
     (0.002, (("f#1", 0), ("f#10", 0)), "nd"),
     (0.003, (("f#1", 0), ("f#1", 1), ("fa#10", 0)), "nd"),
     (0.001, (("fa#10", 0), ("fab#1", 0)), "nd"),
+    # fewer size classes, so that the exploration gets deep (recency after forgets: which survivor goes next?)
+    (0.001, (("f#1", 0), ("f#1", 1), ("f2#1", 0)), "str", ("third", "half")),
+    (0.001, (("f#1", 0), ("f#10", 0), ("f2#1", 0), ("f2#1", 1)), "str", ("third",)),
+    (0.002, (("f#1", 0), ("f#1", 1), ("fa#10", 0)), "nd", ("third", "half")),
+    (0.001, (("f#1", 0), ("f#1", 1), ("f2#1", 0)), "str", ("half", "fit")),
     (0.001, (("f#1", 0), ("f#1", 1), ("f#10", 0), ("f2#1", 1))),
     (0.0003, (("f#1", 0), ("f#10", 0), ("f2#1", 0))),
     (0.004, (("f#1", 0), ("f#1", 1), ("f#1", 2))),
@@ -268,6 +274,17 @@ def explore(cfg_index, stats, findings, deadline, max_states):
     _, s0, _ = rig.run([])
     seen = {s0: []}
     queue = collections.deque([s0])
+    # besides the empty cache, the exploration also starts from a few filled caches whose entries were read in some
+    # order (so that "which survivor goes next after a forget?" is reached within the quick budget)
+    cls0 = "third" if "third" in rig.classes else rig.classes[0]
+    fill = [["put", i, cls0] for i in range(len(keys))]
+    for i in range(len(keys)):
+        for extra in ([], [["read", (i + 1) % len(keys)]], [["get", (i + 1) % len(keys)]]):
+            pre = fill + [["read", i]] + extra
+            viol0, sp, _ = rig.run(pre)
+            if not viol0 and sp not in seen:
+                seen[sp] = pre
+                queue.appendleft(sp)
     transitions = 0
     closed = True
     found = set()
@@ -281,7 +298,7 @@ def explore(cfg_index, stats, findings, deadline, max_states):
             p2 = path + [op]
             viol, s2, info = rig.run(p2)
             transitions += 1
-            case = {"domain": "A", "budget_mb": budget_mb, "keys": [list(k) for k in keys], "path": p2, "kind": rig.kind}
+            case = {"domain": "A", "budget_mb": budget_mb, "keys": [list(k) for k in keys], "path": p2, "kind": rig.kind, "classes": list(rig.classes)}
             out = core.Outcome()
             for sym, msg in viol:
                 out.violation(msg, symptom=sym, domain="A")
@@ -307,7 +324,8 @@ def explore(cfg_index, stats, findings, deadline, max_states):
 
 
 def replay_a(case):
-    rig = CacheRig(case["budget_mb"], tuple(tuple(k) for k in case["keys"]), case.get("kind", "str"))
+    rig = CacheRig(case["budget_mb"], tuple(tuple(k) for k in case["keys"]), case.get("kind", "str"),
+                   tuple(case.get("classes") or ("tiny", "third", "half", "fit", "over")))
     viol, _, info = rig.run(case["path"])
     out = core.Outcome()
     for sym, msg in viol:
@@ -338,6 +356,23 @@ class CacheSession(storeops.Session):
                               len(opens), os.path.relpath(opens[0]["path"], s.root)), op="read_result")
         else:
             super().op_read(fnkey, arg)
+            # the entry just read is now the most recently used one: if its value fits the budget, reading it again
+            # right away must be served by the cache (no file under the store is opened)
+            k = self.key(fnkey, arg)
+            want = self.model.get(k)
+            if cache is not None and want is not None and not self.out.violations:
+                value = values.build(want["vdesc"])
+                fits = (isinstance(value, (str, bytes)) or type(value).__name__ == "ndarray") and \
+                    sys.getsizeof(value) + 64 <= cache.memory_cache_bytes
+                if fits:
+                    self.labels.add("read-again-right-after-a-load")
+                    with fsaudit.Watch(s.root) as w:
+                        super().op_read(fnkey, arg)
+                    opens = [e for e in w.events if e["event"] == "open"]
+                    if opens:
+                        self.fail(s, "just-read-entry-not-served-from-cache",
+                                  "a value of %d bytes (budget %d) was read from the store and read again at once: the second read opened %d files under the store (e.g. %s)" % (
+                                      sys.getsizeof(value), cache.memory_cache_bytes, len(opens), os.path.relpath(opens[0]["path"], s.root)), op="read_result")
 
 
 def _inv_b(sess):
@@ -386,7 +421,7 @@ def replay(case, ctx):
 def run_shard(ctx):
     stats = core.Stats()
     thorough = ctx.tier == "thorough"
-    n_cfg = len(CONFIGS_A) if thorough else 8
+    n_cfg = len(CONFIGS_A) if thorough else 12
     states = transitions = 0
     n_closed = n_run = 0
     for ci in range(n_cfg):
